@@ -136,6 +136,56 @@ pub fn start_watchdog(property: &str, limit_s: f64) {
     });
 }
 
+// ---------------------------------------------------------------------------------------------
+// Abort handler: a stack overflow or an allocation failure inside garble_lang aborts the process
+// (SIGABRT); catch_unwind cannot stop that. The handler turns it into a reported violation of C07
+// (the front end must not crash) instead of a silent death of the check.
+
+extern "C" {
+    fn signal(signum: i32, handler: usize) -> usize;
+    fn write(fd: i32, buf: *const u8, count: usize) -> isize;
+    fn open(path: *const u8, flags: i32, mode: u32) -> i32;
+    fn close(fd: i32) -> i32;
+    fn _exit(code: i32) -> !;
+}
+
+static mut ABORT_PATH: Vec<u8> = Vec::new();
+static mut ABORT_BODY: Vec<u8> = Vec::new();
+static mut ABORT_LINE: Vec<u8> = Vec::new();
+
+extern "C" fn on_abort(_sig: i32) {
+    // only async-signal-safe calls from here on
+    unsafe {
+        let path = &*std::ptr::addr_of!(ABORT_PATH);
+        let body = &*std::ptr::addr_of!(ABORT_BODY);
+        let line = &*std::ptr::addr_of!(ABORT_LINE);
+        let fd = open(path.as_ptr(), 0o1101, 0o644); // O_WRONLY | O_CREAT | O_TRUNC
+        if fd >= 0 {
+            write(fd, body.as_ptr(), body.len());
+            close(fd);
+        }
+        write(1, line.as_ptr(), line.len());
+        _exit(1);
+    }
+}
+
+pub fn install_abort_handler(property: &str) {
+    let dir = format!("{}/replay/{}", verif_dir(), property);
+    let path = format!("{dir}/process_aborted__abort__1.json");
+    let body = json!({"property": "C07", "site": "process/aborted", "kind": "abort", "input": "", "case": {"kind": "context", "text": "unknown (the process was aborted)"}, "detail": format!("the process running the {property} check was aborted (stack overflow or allocation failure) inside a call into garble_lang")});
+    let line = format!("VIOLATION property=C07 replay={path}\n  site=process/aborted kind=abort :: the process running the {property} check was aborted (stack overflow or allocation failure) inside a call into garble_lang\n");
+    unsafe {
+        let mut p = path.into_bytes();
+        p.push(0);
+        *std::ptr::addr_of_mut!(ABORT_PATH) = p;
+        *std::ptr::addr_of_mut!(ABORT_BODY) = serde_json::to_string_pretty(&body).unwrap().into_bytes();
+        *std::ptr::addr_of_mut!(ABORT_LINE) = line.into_bytes();
+        signal(6, on_abort as usize);
+    }
+    // the handler cannot create directories
+    let _ = std::fs::create_dir_all(dir);
+}
+
 /// Runs `f`, turning a Rust panic into Err(message with location).
 pub fn catch<T>(f: impl FnOnce() -> T) -> Result<T, String> {
     let outermost = IN_CATCH.with(|c| {
